@@ -458,7 +458,7 @@ impl<'a> Client<'a> {
                 let r = {
                     let db = self.db.as_ref().unwrap();
                     let (key, val) = (key.clone(), val.clone());
-                    call("put", || db.put(WriteOptions::default(), key, val))
+                    call("put", || db.put(wopts(), key, val))
                 };
                 if self.write_result("put", idx, r) {
                     self.model.insert(key, val);
@@ -470,7 +470,7 @@ impl<'a> Client<'a> {
                 let r = {
                     let db = self.db.as_ref().unwrap();
                     let key = key.clone();
-                    call("delete", || db.delete(WriteOptions::default(), key))
+                    call("delete", || db.delete(wopts(), key))
                 };
                 if self.write_result("delete", idx, r) {
                     self.model.remove(&key);
@@ -491,7 +491,7 @@ impl<'a> Client<'a> {
                 }
                 let r = {
                     let db = self.db.as_ref().unwrap();
-                    call("apply", || db.apply(WriteOptions::default(), batch))
+                    call("apply", || db.apply(wopts(), batch))
                 };
                 if self.write_result("apply", idx, r) {
                     for (k, v) in items {
@@ -564,7 +564,7 @@ impl<'a> Client<'a> {
                     None => (None, self.model.clone()),
                 };
                 let db = self.db.as_ref().unwrap();
-                match call("new_iterator", || db.new_iterator(ReadOptions { fill_cache: true, snapshot })) {
+                match call("new_iterator", || db.new_iterator(ReadOptions { fill_cache: fill_cache(), snapshot })) {
                     Called::Ok(Ok(it)) => {
                         let it: Box<dyn RainDbIterator<Key = Vec<u8>, Error = RainDBError>> = Box::new(it);
                         self.iters.insert(*slot, IterSlot { it, frozen: frozen.into_iter().collect(), cursor: None });
